@@ -216,7 +216,7 @@ pub fn err_class(e: &Xerr) -> &'static str {
             let s = m.as_str();
             if s.contains("limit reached") {
                 "Limit"
-            } else if s.contains("meta-eval context") {
+            } else if s.contains("can operate only with constants") {
                 "Context"
             } else if s.contains("unbalanced context") {
                 "Context"
